@@ -1,106 +1,161 @@
-(* C11 — lemmas about FatalDefs: content is conserved by every step, a good configuration empties
-   every buffer reachable from the logger after the fatal record was written. *)
+(* C11 — lemmas about FatalDefs.  The observation of a configuration is its [view]: for every file
+   sink, in depth-first order, (file ++ buffer, broken?, filters in front of it).  Every step of the
+   model acts on the view in a simple way: a message appends its record to the sinks whose filters it
+   passes; a flush changes nothing.  A good configuration empties, after the fatal record was
+   processed, the buffer of every healthy sink reachable from the logger. *)
 From Coq Require Import List NArith Bool Lia.
 Import ListNotations.
 Require Import QtlVerif.FatalDefs.
 Local Open Scope N_scope.
 
+(* ---- one sink ---- *)
 Lemma qflush_content s : content (qflush s) = content s.
-Proof. unfold content, qflush; cbn. rewrite app_nil_r. reflexivity. Qed.
-Lemma qflush_buf s : buf (qflush s) = [].
-Proof. reflexivity. Qed.
+Proof. unfold qflush. destruct (broken s); [reflexivity|]. unfold content; cbn. rewrite app_nil_r. reflexivity. Qed.
+Lemma qflush_broken s : broken (qflush s) = broken s.
+Proof. unfold qflush. destruct (broken s) eqn:E; [exact E|reflexivity]. Qed.
+Lemma qflush_buf s : broken s = false -> buf (qflush s) = [].
+Proof. unfold qflush. intros ->. reflexivity. Qed.
 Lemma qappend_content s r : content (qappend s r) = content s ++ [r].
 Proof. unfold content, qappend; cbn. rewrite app_assoc. reflexivity. Qed.
 Lemma sink_flush_content cfg s : content (sink_flush cfg s) = content s.
 Proof. unfold sink_flush. destruct (fs_flush_real cfg); [apply qflush_content|reflexivity]. Qed.
+Lemma sink_flush_broken cfg s : broken (sink_flush cfg s) = broken s.
+Proof. unfold sink_flush. destruct (fs_flush_real cfg); [apply qflush_broken|reflexivity]. Qed.
 
-(* whatever the buffering policy does, a write adds exactly its record to (disk ++ buffer) *)
-Lemma write_content cfg pol s r : content (write cfg pol s r) = content s ++ [r].
+(* whatever the buffering policy does, a write adds exactly its record to (file ++ buffer) *)
+Lemma write_spec cfg pol s m :
+  content (write cfg pol s m) = content s ++ [snd m] /\ broken (write cfg pol s m) = broken s.
 Proof.
   unfold write.
   set (s1 := if rot_presize cfg && presize s then qflush s else s).
-  assert (E1 : content s1 = content s)
-    by (unfold s1; destruct (rot_presize cfg && presize s); [apply qflush_content|reflexivity]).
-  destruct (pol s1 r) as [pre post].
+  assert (E1 : content s1 = content s /\ broken s1 = broken s)
+    by (unfold s1; destruct (rot_presize cfg && presize s); [split; [apply qflush_content|apply qflush_broken]|split; reflexivity]).
+  destruct (pol s1 (snd m)) as [pre post].
   set (s2 := if pre then qflush s1 else s1).
-  assert (E2 : content s2 = content s1) by (unfold s2; destruct pre; [apply qflush_content|reflexivity]).
-  destruct post; [rewrite qflush_content|]; rewrite qappend_content, E2, E1; reflexivity.
+  assert (E2 : content s2 = content s1 /\ broken s2 = broken s1)
+    by (unfold s2; destruct pre; [split; [apply qflush_content|apply qflush_broken]|split; reflexivity]).
+  set (s4 := if post then qflush (qappend s2 (snd m)) else qappend s2 (snd m)).
+  assert (E4 : content s4 = content s ++ [snd m] /\ broken s4 = broken s).
+  { unfold s4. destruct post; [rewrite qflush_content, qflush_broken|]; rewrite qappend_content;
+      (split; [rewrite (proj1 E2), (proj1 E1); reflexivity|cbn; rewrite (proj2 E2), (proj2 E1); reflexivity]). }
+  destruct (mem_type (fst m) (snk_flush_types cfg)); [rewrite sink_flush_content, sink_flush_broken|]; exact E4.
 Qed.
 
-(* ---- trees: nested induction (tree contains list tree) ---- *)
-Lemma sinks_twrite cfg pol r : forall t,
-  map content (sinks (twrite cfg pol r t)) = map (fun s => content s ++ [r]) (sinks t).
+(* ---- views ---- *)
+Definition vw (sg : sink * list flt) : list rec * bool * list flt := (content (fst sg), broken (fst sg), snd sg).
+Definition tview (pre : list flt) (t : tree) := map vw (gs pre t).
+Definition view (t : tree) := tview [] t.
+Definition upd (m : msg) (v : list rec * bool * list flt) : list rec * bool * list flt :=
+  let '(c, b, G) := v in (c ++ (if pass G m then [snd m] else []), b, G).
+
+Lemma pass_app G f m : pass (G ++ [f]) m = pass G m && f m.
+Proof. unfold pass. rewrite forallb_app. cbn. rewrite andb_true_r. reflexivity. Qed.
+Lemma gnext_twrite cfg pol m lv pre t : gnext pre (twrite cfg pol m lv t) = gnext pre t.
+Proof. destruct t; reflexivity. Qed.
+Lemma gnext_tflush cfg pre t : gnext pre (tflush cfg t) = gnext pre t.
+Proof. destruct t; cbn; try reflexivity; [destruct (rf_flush_sinks cfg)|destruct (rf_descends cfg)]; reflexivity. Qed.
+Lemma lnext_pass m pre t : lnext m (pass pre m) t = pass (gnext pre t) m.
+Proof. destruct t; unfold lnext, gnext; try reflexivity. rewrite pass_app. reflexivity. Qed.
+
+(* a message appends its record exactly to the sinks whose filters it passes *)
+Lemma tview_twrite cfg pol m : forall t pre,
+  tview pre (twrite cfg pol m (pass pre m) t) = map (upd m) (tview pre t).
 Proof.
-  fix F 1. intros [s|l|]; cbn [twrite sinks]; [cbn [map]; rewrite write_content; reflexivity| |reflexivity].
-  refine ((fix G (l : list tree) :
-             map content (flat_map sinks (map (twrite cfg pol r) l))
-             = map (fun s => content s ++ [r]) (flat_map sinks l) :=
-             match l with [] => eq_refl | x :: l0 => _ end) l).
-  cbn [map flat_map]. rewrite !map_app, (F x), (G l0). reflexivity.
-Qed.
-Lemma lsinks_lwrite cfg pol r l :
-  map content (lsinks (lwrite cfg pol r l)) = map (fun s => content s ++ [r]) (lsinks l).
-Proof.
-  unfold lsinks, lwrite. induction l as [|x l IH]; [reflexivity|].
-  cbn [map flat_map]. rewrite !map_app, sinks_twrite, IH. reflexivity.
+  fix F 1. intros [s|l|f|] pre; cbn [twrite]; try reflexivity.
+  - unfold tview. cbn [gs map]. unfold vw, upd. cbn [fst snd].
+    destruct (pass pre m).
+    + destruct (write_spec cfg pol s m) as [-> ->]. reflexivity.
+    + rewrite app_nil_r. reflexivity.
+  - unfold tview. cbn [gs].
+    refine ((fix G (l : list tree) (cur : list flt) {struct l} :
+               map vw ((fix go (l : list tree) (cur : list flt) : list (sink * list flt) :=
+                          match l with [] => [] | x :: r => gs cur x ++ go r (gnext cur x) end)
+                         ((fix lw (l : list tree) (lv : bool) : list tree :=
+                             match l with [] => [] | x :: r => twrite cfg pol m lv x :: lw r (lnext m lv x) end) l (pass cur m)) cur)
+               = map (upd m) (map vw ((fix go (l : list tree) (cur : list flt) : list (sink * list flt) :=
+                          match l with [] => [] | x :: r => gs cur x ++ go r (gnext cur x) end) l cur)) :=
+               match l with [] => fun _ => eq_refl | x :: r => fun cur => _ end cur) l pre).
+    rewrite !map_app. rewrite gnext_twrite, lnext_pass.
+    change (map vw (gs cur (twrite cfg pol m (pass cur m) x))) with (tview cur (twrite cfg pol m (pass cur m) x)).
+    rewrite (F x cur), (G r (gnext cur x)). reflexivity.
 Qed.
 
-Lemma sinks_tflush cfg : forall t, map content (sinks (tflush cfg t)) = map content (sinks t).
+(* a flush changes no view *)
+Lemma tview_tflush cfg : forall t pre, tview pre (tflush cfg t) = tview pre t.
 Proof.
-  fix F 1. intros [s|l|]; cbn [tflush]; [| |reflexivity].
-  - destruct (rf_flush_sinks cfg); [|reflexivity]. cbn [sinks map]. rewrite sink_flush_content. reflexivity.
-  - destruct (rf_descends cfg); [|reflexivity]. cbn [sinks].
-    refine ((fix G (l : list tree) :
-               map content (flat_map sinks (map (tflush cfg) l)) = map content (flat_map sinks l) :=
-               match l with [] => eq_refl | x :: l0 => _ end) l).
-    cbn [map flat_map]. rewrite !map_app, (F x), (G l0). reflexivity.
+  fix F 1. intros [s|l|f|] pre; cbn [tflush]; try reflexivity.
+  - destruct (rf_flush_sinks cfg); [|reflexivity]. unfold tview. cbn [gs map]. unfold vw. cbn [fst snd].
+    rewrite sink_flush_content, sink_flush_broken. reflexivity.
+  - destruct (rf_descends cfg); [|reflexivity]. unfold tview. cbn [gs].
+    refine ((fix G (l : list tree) (cur : list flt) {struct l} :
+               map vw ((fix go (l : list tree) (cur : list flt) : list (sink * list flt) :=
+                          match l with [] => [] | x :: r => gs cur x ++ go r (gnext cur x) end) (map (tflush cfg) l) cur)
+               = map vw ((fix go (l : list tree) (cur : list flt) : list (sink * list flt) :=
+                          match l with [] => [] | x :: r => gs cur x ++ go r (gnext cur x) end) l cur) :=
+               match l with [] => fun _ => eq_refl | x :: r => fun cur => _ end cur) l pre).
+    cbn [map]. rewrite !map_app, gnext_tflush.
+    change (map vw (gs cur (tflush cfg x))) with (tview cur (tflush cfg x)).
+    rewrite (F x cur), (G r (gnext cur x)). reflexivity.
 Qed.
-Lemma lsinks_lflush cfg l : map content (lsinks (lflush cfg l)) = map content (lsinks l).
+Lemma tview_root_flush cfg t pre : tview pre (root_flush cfg t) = tview pre t.
 Proof.
-  unfold lsinks, lflush. induction l as [|x l IH]; [reflexivity|].
-  cbn [map flat_map]. rewrite !map_app, sinks_tflush, IH. reflexivity.
+  destruct t as [s|l|f|]; try apply tview_tflush. unfold root_flush, tview. cbn [gs]. revert pre.
+  induction l as [|x r IH]; intros cur; [reflexivity|].
+  cbn [map]. rewrite !map_app, gnext_tflush.
+  change (map vw (gs cur (tflush cfg x))) with (tview cur (tflush cfg x)). rewrite tview_tflush.
+  f_equal. apply IH.
 Qed.
 
-(* a flush reaches every sink of the tree when sinks are flushed, nested pipelines are entered and
-   FileSink::flush really flushes *)
-Lemma sinks_tflush_empty cfg :
+(* after a flush that reaches everything, no healthy sink has anything buffered *)
+Definition flushed (sg : sink * list flt) : Prop := broken (fst sg) = false -> buf (fst sg) = [].
+Lemma gs_tflush_flushed cfg :
   rf_flush_sinks cfg = true -> rf_descends cfg = true -> fs_flush_real cfg = true ->
-  forall t, Forall (fun s => buf s = []) (sinks (tflush cfg t)).
+  forall t pre, Forall flushed (gs pre (tflush cfg t)).
 Proof.
-  intros Hs Hd Hr. fix F 1. intros [s|l|]; cbn [tflush].
-  - rewrite Hs. unfold sink_flush. rewrite Hr. cbn [sinks]. constructor; [reflexivity|constructor].
-  - rewrite Hd. cbn [sinks].
-    refine ((fix G (l : list tree) : Forall (fun s => buf s = []) (flat_map sinks (map (tflush cfg) l)) :=
-               match l with [] => Forall_nil _ | x :: l0 => _ end) l).
-    cbn [map flat_map]. apply Forall_app. split; [apply F|apply G].
-  - constructor.
+  intros Hs Hd Hr. fix F 1. intros [s|l|f|] pre; cbn [tflush]; try (cbn; constructor).
+  - rewrite Hs. cbn [gs]. constructor; [|constructor]. unfold flushed, sink_flush. cbn [fst]. rewrite Hr.
+    rewrite qflush_broken. apply qflush_buf.
+  - rewrite Hd. cbn [gs].
+    refine ((fix G (l : list tree) (cur : list flt) {struct l} :
+               Forall flushed ((fix go (l : list tree) (cur : list flt) : list (sink * list flt) :=
+                          match l with [] => [] | x :: r => gs cur x ++ go r (gnext cur x) end) (map (tflush cfg) l) cur) :=
+               match l with [] => fun _ => Forall_nil _ | x :: r => fun cur => _ end cur) l pre).
+    cbn [map]. apply Forall_app. split; [apply F|apply G].
 Qed.
-Lemma lsinks_lflush_empty cfg l :
+Lemma gs_root_flush_flushed cfg :
   rf_flush_sinks cfg = true -> rf_descends cfg = true -> fs_flush_real cfg = true ->
-  Forall (fun s => buf s = []) (lsinks (lflush cfg l)).
+  forall t, Forall flushed (gs [] (root_flush cfg t)).
 Proof.
-  intros Hs Hd Hr. unfold lsinks, lflush. induction l as [|x l IH]; [constructor|].
-  cbn [map flat_map]. apply Forall_app. split; [apply sinks_tflush_empty; assumption|exact IH].
+  intros Hs Hd Hr [s|l|f|]; try (apply gs_tflush_flushed; assumption).
+  unfold root_flush. cbn [gs]. generalize (@nil flt).
+  induction l as [|x r IH]; intros cur; [constructor|].
+  cbn [map]. apply Forall_app. split; [apply gs_tflush_flushed; assumption|apply IH].
 Qed.
 
-(* every message, whatever its type and the flush decisions, adds its record to every sink *)
-Lemma process_message_content cfg pol l m :
-  map content (lsinks (process_message cfg pol l m)) = map (fun s => content s ++ [snd m]) (lsinks l).
+(* ---- messages and histories ---- *)
+Lemma view_process_message cfg pol t m : view (process_message cfg pol t m) = map (upd m) (view t).
 Proof.
-  destruct m as [ty r]. unfold process_message. cbn [snd].
+  unfold process_message, view. change true with (pass [] m).
   destruct (ff_pos cfg).
-  - apply lsinks_lwrite.
-  - rewrite lsinks_lwrite. destruct (flushes cfg ty); [|reflexivity].
-    rewrite <- (map_map content (fun c => c ++ [r])), lsinks_lflush, map_map. reflexivity.
-  - destruct (flushes cfg ty); [rewrite lsinks_lflush|]; apply lsinks_lwrite.
+  - apply tview_twrite.
+  - rewrite tview_twrite. destruct (flushes cfg (fst m)); [rewrite tview_root_flush|]; reflexivity.
+  - destruct (flushes cfg (fst m)); [rewrite tview_root_flush|]; apply tview_twrite.
 Qed.
-Lemma log_all_content cfg pol msgs : forall l,
-  map content (lsinks (log_all cfg pol l msgs)) = map (fun s => content s ++ map snd msgs) (lsinks l).
+Definition upd_all (msgs : list msg) (v : list rec * bool * list flt) : list rec * bool * list flt :=
+  let '(c, b, G) := v in (c ++ map snd (filter (pass G) msgs), b, G).
+Lemma view_log_all cfg pol msgs : forall t, view (log_all cfg pol t msgs) = map (upd_all msgs) (view t).
 Proof.
-  unfold log_all. induction msgs as [|m rest IH]; intros l; cbn [fold_left map].
-  - apply map_ext. intros s. rewrite app_nil_r. reflexivity.
-  - rewrite IH. rewrite <- (map_map content (fun c => c ++ map snd rest)), process_message_content, map_map.
-    apply map_ext. intros s. rewrite <- app_assoc. reflexivity.
+  unfold log_all. induction msgs as [|m rest IH]; intros t; cbn [fold_left].
+  - rewrite <- (map_id (view t)) at 1. apply map_ext. intros [[c b] G]. cbn. rewrite app_nil_r. reflexivity.
+  - rewrite IH, view_process_message, map_map. apply map_ext. intros [[c b] G]. cbn [upd upd_all filter].
+    destruct (pass G m); cbn [map]; rewrite <- app_assoc; reflexivity.
+Qed.
+Lemma view_run_fatal cfg pol t msgs r :
+  view (run_fatal cfg pol t msgs r) = map (upd_all (msgs ++ [(Fatal, r)])) (view t).
+Proof.
+  unfold run_fatal. rewrite view_process_message, view_log_all, map_map. apply map_ext.
+  intros [[c b] G]. cbn [upd upd_all]. rewrite filter_app, map_app, <- app_assoc. cbn [filter].
+  destruct (pass G (Fatal, r)); reflexivity.
 Qed.
 
 Lemma cfg_good_inv cfg : cfg_goodb cfg = true ->
@@ -113,79 +168,102 @@ Proof.
   repeat split; try assumption. apply andb_true_iff. split; assumption.
 Qed.
 
-Lemma disk_of_flushed (l : list sink) :
-  Forall (fun s => buf s = []) l -> map disk l = map content l.
+Definition obs (v : list rec * bool * list flt) : option (list rec) :=
+  let '(c, b, _) := v in if b then None else Some c.
+Lemma expected_view t msgs : expected t msgs = map obs (map (upd_all msgs) (view t)).
 Proof.
-  induction 1 as [|s l Hs _ IH]; [reflexivity|]. cbn [map]. rewrite IH. f_equal.
-  unfold content. rewrite Hs, app_nil_r. reflexivity.
+  unfold expected, view, tview, gsinks. rewrite !map_map. apply map_ext. intros [s G]. cbn.
+  destruct (broken s); reflexivity.
+Qed.
+Lemma survivors_of_flushed t : Forall flushed (gsinks t) -> survivors t = map obs (view t).
+Proof.
+  unfold survivors, view, tview. generalize (gsinks t). intros l H. rewrite map_map.
+  induction H as [|[s G] l Hs _ IH]; [reflexivity|]. cbn [map]. rewrite IH. f_equal.
+  unfold vw, obs. cbn [fst snd]. unfold flushed in Hs. cbn [fst] in Hs.
+  destruct (broken s); [reflexivity|]. unfold content. rewrite (Hs eq_refl), app_nil_r. reflexivity.
 Qed.
 
-(* THE theorem: with a good configuration the file of every sink reachable from the logger holds, at
-   abort, what it held before plus every record of the history plus the fatal one — for every
-   configuration tree, every history, every buffering policy *)
+(* THE theorem: with a good configuration, for every handler tree (file sinks healthy or not,
+   filters, other handlers, pipelines nested to any depth), every history, every buffering policy:
+   at abort the file of every healthy file sink holds what it held before plus every record that
+   passed the filters in front of that sink, in order — the fatal record included iff it passes *)
 Theorem fatal_reaches_disk cfg : cfg_goodb cfg = true ->
-  forall (pol : policy) (l : list tree) (msgs : list (mtype * rec)) (r : rec),
-  survivors (run_fatal cfg pol l msgs r)
-  = map (fun s => content s ++ map snd msgs ++ [r]) (lsinks l).
+  forall (pol : policy) (t : tree) (msgs : list msg) (r : rec),
+  survivors (run_fatal cfg pol t msgs r) = expected t (msgs ++ [(Fatal, r)]).
 Proof.
-  intros Hg pol l msgs r.
+  intros Hg pol t msgs r.
   destruct (cfg_good_inv cfg Hg) as (Hp & Hf & Hs & Hd & Hr).
-  unfold survivors.
-  assert (Hbuf : Forall (fun s => buf s = []) (lsinks (run_fatal cfg pol l msgs r))).
-  { unfold run_fatal, process_message. rewrite Hp, Hf. apply lsinks_lflush_empty; assumption. }
-  rewrite (disk_of_flushed _ Hbuf).
-  unfold run_fatal. rewrite process_message_content. cbn [snd].
-  rewrite <- (map_map content (fun c => c ++ [r])), log_all_content, map_map.
-  apply map_ext. intros s. rewrite <- app_assoc. reflexivity.
+  rewrite survivors_of_flushed.
+  - rewrite view_run_fatal, expected_view. reflexivity.
+  - unfold run_fatal, process_message, gsinks. rewrite Hp. cbn [fst]. rewrite Hf.
+    apply gs_root_flush_flushed; assumption.
 Qed.
 
-(* fresh files: every file = all records, fatal last *)
-Corollary fatal_reaches_disk_fresh cfg : cfg_goodb cfg = true ->
-  forall pol l msgs r, Forall (fun s => content s = []) (lsinks l) ->
-  survivors (run_fatal cfg pol l msgs r) = map (fun _ => map snd msgs ++ [r]) (lsinks l).
-Proof.
-  intros Hg pol l msgs r He. rewrite (fatal_reaches_disk cfg Hg).
-  induction He as [|s k Hs _ IH]; [reflexivity|]. cbn [map]. rewrite Hs, IH. reflexivity.
-Qed.
+(* nothing is ever lost from file ++ buffer, good configuration or not: what a file lacks at abort
+   is exactly what still sat in the buffer *)
+Theorem content_conserved cfg pol t msgs r :
+  view (run_fatal cfg pol t msgs r) = map (upd_all (msgs ++ [(Fatal, r)])) (view t).
+Proof. apply view_run_fatal. Qed.
 
-(* nothing is ever lost from disk ++ buffer, good configuration or not: what is missing from a file
-   at abort is exactly what still sat in the buffer *)
-Theorem content_conserved cfg pol l msgs r :
-  map content (lsinks (run_fatal cfg pol l msgs r))
-  = map (fun s => content s ++ map snd msgs ++ [r]) (lsinks l).
+(* without filters and broken devices: every file = previous content + ALL records + the fatal one *)
+Lemma pass_nil m : pass [] m = true. Proof. reflexivity. Qed.
+Corollary fatal_reaches_disk_unfiltered cfg : cfg_goodb cfg = true ->
+  forall pol t msgs r,
+  Forall (fun sg => snd sg = [] /\ broken (fst sg) = false) (gsinks t) ->
+  survivors (run_fatal cfg pol t msgs r)
+  = map (fun sg => Some (content (fst sg) ++ map snd msgs ++ [r])) (gsinks t).
 Proof.
-  unfold run_fatal. rewrite process_message_content. cbn [snd].
-  rewrite <- (map_map content (fun c => c ++ [r])), log_all_content, map_map.
-  apply map_ext. intros s. rewrite <- app_assoc. reflexivity.
+  intros Hg pol t msgs r H. rewrite (fatal_reaches_disk cfg Hg). unfold expected.
+  induction H as [|[s G] l [HG Hb] _ IH]; [reflexivity|]. cbn [map fst snd] in *. rewrite IH, Hb, HG. f_equal. f_equal. f_equal.
+  rewrite map_app. cbn. f_equal.
+  induction msgs as [|m rest IHm]; [reflexivity|]. cbn. rewrite IHm. reflexivity.
 Qed.
 
 (* ---- the oracle ---- *)
+Lemma ids_eqb_refl a : ids_eqb a a = true.
+Proof. induction a as [|x a IH]; [reflexivity|]. cbn. rewrite N.eqb_refl, IH. reflexivity. Qed.
 Lemma ids_eqb_eq a : forall b, ids_eqb a b = true <-> a = b.
 Proof.
   induction a as [|x a IH]; intros [|y b]; cbn; try (split; [discriminate|discriminate]); [split; reflexivity|].
   rewrite andb_true_iff, N.eqb_eq, IH. split; [intros [-> ->]; reflexivity|intros H; inversion H; split; reflexivity].
 Qed.
-Lemma prop_c11_b_spec expected files :
-  prop_c11_b expected files = true <-> Forall (fun f => f = expected) files.
+Lemma files_okb_refl l : files_okb l l = true.
+Proof. induction l as [|[a|] l IH]; [reflexivity| |]; cbn; [rewrite ids_eqb_refl|]; exact IH. Qed.
+(* what the oracle accepts: same number of sinks, and every healthy sink's file = the expected ids *)
+Lemma files_okb_spec e : forall f, files_okb e f = true <->
+  length e = length f /\ forall k a, nth_error e k = Some (Some a) -> nth_error f k = Some (Some a).
 Proof.
-  unfold prop_c11_b. rewrite forallb_forall, Forall_forall.
-  split; intros H f Hf; specialize (H f Hf); [symmetry|subst f]; apply ids_eqb_eq; [exact H|reflexivity].
+  induction e as [|x e IH]; intros [|y f]; cbn [files_okb length].
+  - split; [intros _; split; [reflexivity|intros [|k] a H; discriminate]|reflexivity].
+  - split; [discriminate|intros [H _]; discriminate].
+  - split; [discriminate|intros [H _]; discriminate].
+  - rewrite andb_true_iff, IH. split.
+    + intros [Hx [Hl Hn]]. split; [f_equal; exact Hl|]. intros [|k] a Hk; cbn in *; [|apply Hn; exact Hk].
+      inversion Hk; subst x. destruct y as [b|]; cbn in Hx; [|discriminate]. apply ids_eqb_eq in Hx. subst. reflexivity.
+    + intros [Hl Hn]. split; [|split; [congruence|intros k a Hk; apply (Hn (S k) a Hk)]].
+      destruct x as [a|]; [|reflexivity]. specialize (Hn O a eq_refl). cbn in Hn. inversion Hn. cbn. apply ids_eqb_refl.
 Qed.
 Theorem oracle_holds cfg : cfg_goodb cfg = true ->
-  forall pol l msgs r, Forall (fun s => content s = []) (lsinks l) ->
-  prop_c11_b (map rid (map snd msgs ++ [r])) (ids_of (survivors (run_fatal cfg pol l msgs r))) = true.
+  forall pol t msgs r,
+  prop_c11_b t msgs r (ids_of (survivors (run_fatal cfg pol t msgs r))) = true.
 Proof.
-  intros Hg pol l msgs r He. apply prop_c11_b_spec.
-  rewrite (fatal_reaches_disk_fresh cfg Hg pol l msgs r He). unfold ids_of.
-  rewrite map_map. apply Forall_forall. intros f Hf. apply in_map_iff in Hf. destruct Hf as (s & <- & _). reflexivity.
+  intros Hg pol t msgs r. unfold prop_c11_b. rewrite (fatal_reaches_disk cfg Hg). apply files_okb_refl.
 Qed.
 
-(* ---- the defect that was repaired, and the other ways to get it wrong: witnesses ---- *)
+(* ---- variants of a configuration, for the refutations ---- *)
 Definition with_pos (cfg : fatal_cfg) (p : fpos) : fatal_cfg :=
   {| ff_pos := p; ff_types := ff_types cfg; ff_cond := ff_cond cfg; rf_flush_sinks := rf_flush_sinks cfg;
-     rf_descends := rf_descends cfg; fs_flush_real := fs_flush_real cfg; rot_presize := rot_presize cfg |}.
+     rf_descends := rf_descends cfg; fs_flush_real := fs_flush_real cfg; rot_presize := rot_presize cfg;
+     snk_flush_types := snk_flush_types cfg |}.
 Definition with_descends (cfg : fatal_cfg) (b : bool) : fatal_cfg :=
   {| ff_pos := ff_pos cfg; ff_types := ff_types cfg; ff_cond := ff_cond cfg; rf_flush_sinks := rf_flush_sinks cfg;
-     rf_descends := b; fs_flush_real := fs_flush_real cfg; rot_presize := rot_presize cfg |}.
+     rf_descends := b; fs_flush_real := fs_flush_real cfg; rot_presize := rot_presize cfg;
+     snk_flush_types := snk_flush_types cfg |}.
+(* the flush moved from the logger into the sink: IODeviceSink::send flushes after a fatal record *)
+Definition flush_in_sink (cfg : fatal_cfg) : fatal_cfg :=
+  {| ff_pos := FNone; ff_types := ff_types cfg; ff_cond := ff_cond cfg; rf_flush_sinks := rf_flush_sinks cfg;
+     rf_descends := rf_descends cfg; fs_flush_real := fs_flush_real cfg; rot_presize := rot_presize cfg;
+     snk_flush_types := [Fatal] |}.
 Definition mk (i l : N) : rec := {| rid := i; rlen := l |}.
-Definition info (i l : N) : mtype * rec := (Info, mk i l).
+Definition info (i l : N) : msg := (Info, mk i l).
+Definition is_type (ty : mtype) : flt := fun m => mtype_eqb (fst m) ty.
